@@ -345,6 +345,37 @@ func c06Forward(k *core.Case, m *abs.Msg, ci int) {
 	}
 	k.Count(fmt.Sprintf("lib_pad_len_%d", len(pad)), 1)
 	k.Distinct(fmt.Sprintf("fwd|%s|%v|pad%d|%s", s.Name(), init, len(pad), abs.Kinds(m)))
+	// the caller keeps its payload list and sends it again in further message objects (next Message ID, or the same
+	// content to another peer): every one of them must be the protected form of exactly that list
+	if k.Index%3 == 0 && len(m.Payloads) > 0 {
+		cont, berr := bridge.BuildPayloads(m.Payloads)
+		if berr != nil {
+			return
+		}
+		for round := 0; round < 3; round++ {
+			m2 := *m
+			m2.MsgID = m.MsgID + uint32(round)
+			lm := &message.IKEMessage{IKEHeader: &message.IKEHeader{InitiatorSPI: m2.ISPI, ResponderSPI: m2.RSPI, MajorVersion: m2.Major, MinorVersion: m2.Minor,
+				ExchangeType: m2.Exch, Flags: m2.Flags, MessageID: m2.MsgID}, Payloads: cont}
+			kx, _ := libsa.NewKey(raw)
+			var w2 []byte
+			var err2 error
+			if pn := core.Try(func() { w2, err2 = ike.EncodeEncrypt(lm, kx, role(init)) }); pn != nil || err2 != nil {
+				k.Violate("protect-error", "payload-list-sent-again-error", fmt.Sprint(err2, pn), w)
+				return
+			}
+			u2, _, _, uerr := ref.Unprotect(w2, s, raw.Dir(init))
+			if uerr != nil || !abs.Equal(&m2, u2) {
+				d := "rejected: " + fmt.Sprint(uerr)
+				if uerr == nil {
+					d = abs.Diff(&m2, u2)
+				}
+				k.Violate("mismatch", "payload-list-sent-again-differs", fmt.Sprintf("message %d built from the payload list the caller still holds: %s", round+1, d), w)
+				return
+			}
+		}
+		k.Count("payload_list_sent_in_three_messages", 1)
+	}
 	if k.WantSample() && len(wire) < 300 {
 		k.Sample(M{"dir": "library->independent peer", "suite": s.Name(), "sender_initiator": init, "msg": msgJSON(m), "wire": core.Hex(wire), "pad_len": len(pad)})
 	}
@@ -462,7 +493,7 @@ func c06(c *core.Ctx) {
 		k.Count("at_limit_protected_ok", 1)
 		k.Distinct(fmt.Sprintf("limit|ok|%s|%d", s.Name(), inner/16))
 	})
-	c.Require("at_limit_refused_with_error", "at_limit_protected_ok", "msg_object_completed-after-plain-encode", "msg_object_header-parsed-from-a-protected-datagram", "msg_object_object-decoded-from-another-datagram", "msg_object_NewMessage")
+	c.Require("payload_list_sent_in_three_messages", "at_limit_refused_with_error", "at_limit_protected_ok", "msg_object_completed-after-plain-encode", "msg_object_header-parsed-from-a-protected-datagram", "msg_object_object-decoded-from-another-datagram", "msg_object_NewMessage")
 }
 
 var _ = message.TypeSK
